@@ -233,6 +233,7 @@ def main():
         r['name'] = nc['name']
         r['rc'] = p.returncode
         r['bound'] = nc.get('bound', '')
+        r['role'] = nc.get('role', 'stand-in')
         native_results.append(r)
     # 1. lemmas (serial: later lemmas may use earlier ones)
     lemma_reports = {}
@@ -409,8 +410,9 @@ def main():
                     undecided.append(('bounded:' + fk, outp))
             else:
                 undecided.append(('unsupported:' + fk, ''))
+    cross_checks = []
     for nr in native_results:
-        bounded.append({'function': 'native:' + nr['name'], 'reason': ['bounded by design: ' + nr.get('bound', '')],
+        (cross_checks if nr.get('role') == 'cross-check' else bounded).append({'function': 'native:' + nr['name'], 'reason': ['bounded by design: ' + nr.get('bound', '')],
                         'evaluations': nr.get('evaluations'), 'valid': nr.get('distinct'), 'error': nr.get('error'),
                         'sections': nr.get('sections')})
         if nr.get('error') or nr.get('rc') == 3:
@@ -473,7 +475,7 @@ def main():
             'obligation_instances': sum(len(v) for v in agg.values()),
             'by_backend': by_backend, 'solver_seconds': round(solver_time, 2),
             'known_finding_obligations': known_obl,
-            'bounded': bounded, 'undecided': [u[0] for u in undecided],
+            'bounded': bounded, 'cross_checks': cross_checks, 'undecided': [u[0] for u in undecided],
             'failed_obligations': sorted(failed)[:50],
             'samples': samples,
             'notes': sorted(notes)[:20],
